@@ -116,6 +116,8 @@ inductive DstSt where
 /-- reply of the source proxy to UMSYNC -/
 inductive SyncRep where
   | ok | finished | taskNotFound
+  | err                  -- `-failed to …`: the source proxy could not serve the UMSYNC (a Redis connection of
+                         -- the migrating task failed)
   deriving DecidableEq, Repr, Hashable
 
 /-- UMSYNC fast path at the source proxy (`handle_sync_task` under the `SlotMutex`) -/
@@ -237,6 +239,13 @@ def scanLocked : ScanPc → Bool
   | .del l => l
   | .fin l => l
 
+/-- a failing source connection makes the scan loop abandon the current batch (seen from this key: whatever
+this key's part of the batch has reached — another key's command of the same pipeline may be the one that
+fails; a RESTORE that fails is simply re-sent, `keep_connecting_and_sending_cmd_with_cached_client`) -/
+def scanAbandonable : ScanPc → Bool
+  | .idle => false
+  | _ => true
+
 def CritPc.isFast : CritPc → Bool
   | .uFast _ => true
   | _ => false
@@ -316,6 +325,12 @@ inductive Label where
   | dlvPreSwitch
   | dlvFinalSwitch
   | commit (p : Proxy)                     -- SETCLUSTER with the committed metadata
+  | syncFault (delDone : Bool)             -- FAULT: a Redis connection of the UMSYNC fast path fails at its next
+                                           -- command (PTTL/DUMP pipeline, or the final DEL; `delDone`: the DEL was
+                                           -- executed, only its reply is lost): the source answers UMSYNC with an error
+  | scanFault                              -- FAULT: the source connection of the scan loop fails at the next command of
+                                           -- the current batch: the batch is abandoned (a slow-path batch answers its
+                                           -- queued UMSYNC with an error), the loop reconnects
   | tau (t : Tau)
   deriving DecidableEq, Repr, Hashable
 
@@ -420,6 +435,8 @@ def stepTau (s : Sys) : Tau → Option Sys
     guard (o.pc == .uPending && s.crit.isSome) (setPc s id (.done (.err 1)))
   | .syncDone =>
     match s.crit with
+    -- an error reply other than MIGRATION_TASK_NOT_FOUND: the client command fails, it is NOT forwarded
+    | some { id := id, pc := .uSyncGot .err, .. } => some (setPc { s with crit := none } id (.done (.err 2)))
     | some { id := id, pc := .uSyncGot _, .. } => some (setPc { s with crit := none } id .pCmd)
     | _ => none
   | .redispatch id => do
@@ -509,6 +526,20 @@ def step? (s : Sys) : Label → Option Sys
     guard (s.dstTask && s.dstSt == .switchCommitted && s.srcSt == .switchCommitted) { s with dstTask := false }
   | .commit .S =>
     guard (s.srcTask && s.dstSt == .switchCommitted && s.srcSt == .switchCommitted) { s with srcTask := false }
+  | .syncFault delDone =>
+    match s.crit with
+    | some { id := id, pc := .uFast .pttl, .. } => guard (!delDone) (setCrit s id (.uSyncGot .err))
+    | some { id := id, pc := .uFast (.dump _), .. } => guard (!delDone) (setCrit s id (.uSyncGot .err))
+    | some { id := id, pc := .uFast .del, .. } =>
+      some (setCrit (if delDone then { s with src := none } else s) id (.uSyncGot .err))
+    | _ => none
+  | .scanFault =>
+    if !scanAbandonable s.scan then none
+    else if scanLocked s.scan then some { s with scan := .idle }
+    else match s.crit with
+      | some k => if k.pc == .uSlow then some { setCrit s k.id (.uSyncGot .err) with scan := .idle }
+                  else some { s with scan := .idle }
+      | none => some { s with scan := .idle }
   | .tau t => stepTau s t
 
 /-- all internal steps that could be enabled (the driver closes state sets under them) -/
